@@ -124,6 +124,22 @@ class C08(Property):
         for cap in (1, 2):
             for d in (body, b"\xef\xbb\xbf" + body, le, be):
                 cases.append(Case(f"bufreader {cap} {hexs(d)}", tags=("pin-read_bom", "bufreader-cap<3")))
+        # content that begins like some other byte-order mark or with a second BOM: UTF-16 text whose first character is
+        # U+0000 (FF FE 00 00 = the UTF-32LE mark), FE FF 00 00, the UTF-32BE mark, doubled / mixed marks, a NUL after the UTF-8 mark
+        tail8 = b"osu file format v9\n\n[General]\nMode: 3\n[Metadata]\nTitle: t\n"
+        tail_le = "osu file format v9\n\n[General]\nMode: 3\n[Metadata]\nTitle: t\n".encode("utf-16-le")
+        tail_be = "osu file format v9\n\n[General]\nMode: 3\n[Metadata]\nTitle: t\n".encode("utf-16-be")
+        for data in (b"\xff\xfe\x00\x00" + tail_le, b"\xff\xfe\x00\x00\x0a\x00" + tail_le, b"\xfe\xff\x00\x00" + tail_be, b"\x00\x00\xfe\xff" + tail_be,
+                     b"\xff\xfe\xff\xfe" + tail_le, b"\xfe\xff\xfe\xff" + tail_be, b"\xff\xfe\xfe\xff" + tail_le,
+                     b"\xef\xbb\xbf\xef\xbb\xbf" + tail8, b"\xef\xbb\xbf\xef\xbb\xbf\xef\xbb\xbf[HitObjects]\n256,192,2000,1,0\n", b"\xef\xbb\xbf\x00" + tail8,
+                     b"\xef\xbb\xbf\xff\xfe" + tail8, b"\xef\xbb\xbf\n" + tail8, b"\xef\xbb\xbf\xef\xbb\xbf[HitObjects]\n256,192,2000,1,0\n100,100,3000,1,0\n"):
+            deliveries(data, "bom-like-prefix", [1, 2, 3, 4, 5, 8, 64], 2, [1, 2, 3, 4, 16])
+            cases.append(Case("frompath " + hexs(data), tags=("from_path", "bom-like-prefix")))
+            try:
+                data.decode("utf-8")
+                cases.append(Case("fromstr " + hexs(data), tags=("from_str", "bom-like-prefix")))
+            except UnicodeDecodeError:
+                pass
         # tiny streams: everything up to the BOM lengths
         for data in (b"", b"\n", b"a", b"ab", b"abc", b"\xef\xbb\xbf", b"\xff\xfe", b"\xfe\xff", b"\xef\xbb", b"\xff", b"\xff\xfe\n",
                      b"\xff\xfe\n\x00", b"\xfe\xff\x00\n", b"\xef\xbb\xbf[General]\nA"):
